@@ -148,7 +148,7 @@ class C03(Prop):
                    "tolerance 1e-9*norm (1e-7 for distance, which the library computes as a difference of squares)"]
 
     def budget(self, tier):
-        return dict(examples=1500, shards=16) if tier == "quick" else dict(examples=80000, shards=16)
+        return dict(examples=3000, shards=16) if tier == "quick" else dict(examples=80000, shards=16)
 
     def strategy(self, tier):
         return cases(tier)
